@@ -444,10 +444,31 @@ def check_tensor(case):
         return classes.tensor_ref_eval(numeric_spec)
     specs.build = lambda s, route="ctor": build_symbolic_tensor(s)
     try:
-        return check_diagram(spec, case["plan"], evaluate, reference,
+        info = check_diagram(spec, case["plan"], evaluate, reference,
                              ["tensor"])
     finally:
         specs.build = orig_build
+    # the same diagram inside a bubble, alone and within a composite: its
+    # symbols are still reported, and substituting them all leaves numbers
+    from discopy import tensor
+    d = build_symbolic_tensor(spec)
+    symbols = spec_symbols(spec)
+    plan = case["plan"]
+    for what, outer in (("bubble", d.bubble(func=lambda x: 2 * x)),
+                        ("composite with a bubble", tensor.Id(d.dom)
+                         >> d.bubble(func=lambda x: 2 * x)
+                         >> tensor.Id(d.cod))):
+        require({str(x) for x in outer.free_symbols} == symbols,
+                "C14:free_symbols", lambda: "{}: {} reports {} but its "
+                "parameters contain {}".format(what, outer,
+                                               outer.free_symbols, symbols))
+        done = outer.subs([(sym(k), v) for k, v in plan["env"].items()])
+        require(not done.free_symbols, "C14:free-symbols-left",
+                lambda: "{} still reports {}".format(done, done.free_symbols))
+        same(to_complex(done.eval().array, {}), 2 * classes.tensor_ref_eval(
+            subst_spec(spec, dict(plan["env"]))), "subs-then-eval-bubble",
+            common.show(d))
+    return info
 
 
 # ------------------------------------------------------------------ zx
